@@ -79,8 +79,10 @@ def e_background2d(inp):
     out = []
     # box sizes: dividing the image, full-width strips, height-1 boxes, remainders on both axes, box == image
     for box in ((10, 12), (10, 36), (1, 12), (7, 8), (30, 36)):
+        kw = {k2: inp[k1] for k1, k2 in (('bkg_estimator', 'bkg_estimator'), ('bkgrms_estimator', 'bkgrms_estimator'), ('sigma_clip_obj', 'sigma_clip'),
+                                         ('interpolator', 'interpolator')) if inp.get(k1) is not None}      # caller-owned helper objects (C10)
         b = Background2D(inp['data'], box, mask=inp.get('mask'), coverage_mask=inp.get('coverage_mask'), filter_size=3,
-                         exclude_percentile=30.0)
+                         exclude_percentile=30.0, **kw)
         out += [b.background, b.background_rms, b.background_mesh, b.background_rms_mesh, b.background_median, b.background_rms_median, b.npixels_mesh]
     return out
 
@@ -336,7 +338,8 @@ def e_psf_photometry(inp):
     from photutils.background import LocalBackground
     from photutils.psf import PSFPhotometry, SourceGrouper
     model = inp.get('model') or _psf_model()
-    ph = PSFPhotometry(model, (7, 7), grouper=SourceGrouper(10), localbkg_estimator=LocalBackground(5, 9), aperture_radius=4)
+    ph = PSFPhotometry(model, (7, 7), grouper=inp.get('grouper') or SourceGrouper(10), localbkg_estimator=inp.get('localbkg_est') or LocalBackground(5, 9),
+                       aperture_radius=4, finder=inp.get('finder'), fitter=inp.get('fitter') or __import__('astropy.modeling.fitting', fromlist=['x']).TRFLSQFitter())
     res = ph(inp['data'], mask=inp.get('mask'), error=inp.get('error'), init_params=_init_table(inp))
     return [res, ph.make_model_image(SHAPE, psf_shape=(9, 9)), ph.make_residual_image(inp['data'], psf_shape=(9, 9))]
 
